@@ -77,6 +77,7 @@ structure PSt where
   relNum : Nat := 0
   relSize : Nat := 0
   warned : Bool := false       -- the semaphore's warning callback has fired (a `.warn` entry was logged)
+  handled : List Nat := []     -- tags of the events `process()` was called for, newest first
 
 /-- the `Released` wrapper installed by `New`: release the semaphore, then tell the application -/
 def relTag (st : PSt) (tag size err : Nat) : PSt :=
@@ -98,8 +99,12 @@ def absorb (recs : Nat → Rec) : List Cb → PSt → PSt
 /-- entries of `new` that `old` did not have yet, oldest first -/
 def added (old new : St) : List Cb := (new.trace.take (new.trace.length - old.trace.length)).reverse
 
+/-- ghost: note that `process()` is called for this event -/
+def mark (st : PSt) (it : Item) : PSt := { st with handled := it.tag :: st.handled }
+
 /-- `process(peer, event, resErr)`; returns the parents to request -/
-def handle (cfg : Cfg) (O : Oracle) (st : PSt) (it : Item) (err : Nat) : PSt × List Nat :=
+def handle (cfg : Cfg) (O : Oracle) (st0 : PSt) (it : Item) (err : Nat) : PSt × List Nat :=
+  let st := mark st0 it
   if err != 0 then (relTag st it.tag it.ev.size err, [])
   else
     let h := st.highest
